@@ -242,7 +242,93 @@ def run_case(doc_text, ops, mode):
     return own + step_fails, info
 
 
+# ---------------------------------------------------------------------------
+# directed documents with a line-level locality oracle (no attribute model needed): every line of the input that is
+# not part of the addressed binding has to come out unchanged, and an accepted edit changes one block of lines only.
+
+
+def directed_case(r: random.Random):
+    """-> (family, text, op, path, value, (lo, hi) lines of the input that may change; lo == hi + 1 means 'insert in front of line lo')"""
+    c = lambda: r.choice(["", "", " # keep", " # of the unpacked tree", " # dynamic"])
+    fam = r.choice(["dynamic-twin", "call-inherit"])
+    if fam == "dynamic-twin":
+        dyn = r.choice(["${x}", '"${x}"', "${x.y}", '"${x}-suffix"'])
+        lit_path = '"' + dyn.strip('"') + '"'  # the literal name with the same characters
+        lit_text = '"' + dyn.strip('"').replace("${", "\\${") + '"'
+        body = [f"  a = 1;{c()}", f"  {dyn} = 2;{c()}", f"  b = 3;{c()}"]
+        r.shuffle(body)
+        has_lit = r.random() < 0.5
+        lit_idx = None
+        if has_lit:
+            lit_idx = r.randrange(len(body) + 1)
+            body.insert(lit_idx, f"  {lit_text} = 30;{c()}")
+        head = r.choice([[], ["{ x }:"], ["x:"], ["let", "  x = \"k\";", "in"]])
+        lines = head + ["{"] + body + ["}"]
+        off = len(head) + 1
+        if has_lit:
+            op = r.choice(["set", "rm"])
+            return fam, "\n".join(lines) + "\n", op, lit_path, ("77" if op == "set" else None), (off + lit_idx, off + lit_idx)
+        close = len(lines) - 1
+        return fam, "\n".join(lines) + "\n", "set", lit_path, "77", (close, close - 1)
+    # call-inherit: `src = fetchgit { inherit rev; … };` redirects `src.rev` to the sibling `rev`; every other leaf below
+    # `src` addresses something inside the call (refused today) and never a sibling that merely has the same name
+    sib = r.sample(["hash", "url", "sha256", "name"], r.randint(1, 3))
+    in_let = r.random() < 0.4
+    inner = ["    inherit rev;"] + [f"    {n} = \"in-{n}\";" for n in r.sample(["url", "owner"], r.randint(0, 2))]
+    r.shuffle(inner)
+    sibs = [f"  rev = \"1\";{c()}"] + [f"  {n} = \"out-{n}\";{c()}" for n in sib]
+    r.shuffle(sibs)
+    block = ["  src = fetchgit {"] + inner + ["  };"]
+    if in_let:
+        lines = ["let"] + sibs + ["in", "{"] + block + ["  other = 1;", "}"]
+        lo = len(sibs) + 3
+    else:
+        pos = r.randrange(len(sibs) + 1)
+        lines = ["{ fetchgit }:", "{"] + sibs[:pos] + block + sibs[pos:] + ["}"]
+        lo = 2 + pos
+    hi = lo + len(block) - 1
+    op = r.choice(["set", "set", "rm"])
+    leaf = r.choice(sib + ["fresh"])
+    return fam, "\n".join(lines) + "\n", op, "src." + leaf, ('"X"' if op == "set" else None), (lo, hi)
+
+
+def judge_directed(text, op, path, value, allowed, via_cli):
+    """Line-level locality; refusals are not judged here (C05/C08), but a refused edit must not print a document."""
+    nima.reset_state()
+    lo, hi = allowed
+    if via_cli:
+        code, so, se, exc = nima.cli([op, path] + ([value] if op == "set" else []), text)
+        if exc is not None or code != 0:
+            return [("refused-edit-printed-a-document", {"stdout": so[:200]})] if so.strip() else []
+        out = so
+    else:
+        status, out, _src = E.run_op(text, op, path, value)
+        if status != "ok":
+            return []
+    a, b = text.split("\n"), out.split("\n")
+    pre = 0
+    while pre < min(len(a), len(b)) and a[pre] == b[pre]:
+        pre += 1
+    suf = 0
+    while suf < min(len(a), len(b)) - pre and a[len(a) - 1 - suf] == b[len(b) - 1 - suf]:
+        suf += 1
+    ch_lo, ch_hi = pre, len(a) - 1 - suf  # changed input lines (empty when ch_hi < ch_lo)
+    if out == text:
+        return [("accepted-edit-changed-nothing", {})] if op == "rm" or value not in text else []
+    if ch_hi < ch_lo:
+        ok = lo <= ch_lo <= hi + 1
+    else:
+        ok = lo <= ch_lo and ch_hi <= hi
+    if not ok:
+        return [("lines-outside-the-addressed-binding-changed", {"changed": [ch_lo, ch_hi], "allowed": [lo, hi], "out": out[:400]})]
+    return []
+
+
+
 def replay(case):
+    if "directed" in case:
+        d = case["directed"]
+        return judge_directed(case["doc"], d["op"], d["path"], d["value"], tuple(d["allowed"]), d["via_cli"])
     fl, _ = run_case(case["doc"], [tuple(o) for o in case["ops"]], case.get("mode", "reparse"))
     return fl
 
@@ -263,6 +349,16 @@ def run_shard(sh):
             sh.skipped_budget += 1
             return
         sh.now(n)
+        if n % 8 == 0:
+            r = random.Random(n)
+            fam, text, op, path, value, allowed = directed_case(r)
+            via_cli = r.random() < 0.3
+            case = {"doc": text, "directed": {"op": op, "path": path, "value": value, "allowed": list(allowed), "via_cli": via_cli, "family": fam}}
+            fl = judge_directed(text, op, path, value, allowed, via_cli)
+            sh.record(case, True, ["directed:" + fam, "op:" + op, "cli" if via_cli else "api"])
+            for k, d in fl:
+                sh.fail(f"{k}|directed:{fam}|{op}", case, d)
+            return
         g = base.gen_case(n, kw=doc_kw, scoped_bias=0.2, max_ops=6, single_line=True, op_kw=op_kw, flags=flags)
         if g is None:
             return
